@@ -66,7 +66,21 @@ def c19a(ck, prog):
             if re.search(r"^std::fs::|^<std::fs::File as std::io::Read>::|std::io::Read::read", c.callee or ""):
                 readers.setdefault(f.key, set()).add(c.name)
     allowed = r"routing::Dir::new(::fetch_entries)?(::\{closure#\d+\})*$|StaticFileHandler>::new(::\{closure#\d+\})*$"
-    bad = [k for k in readers if not re.search(allowed, k)]
+    # ... or in a helper that only those start-up functions (transitively) call
+    starts = [g for g in prog.fns.values() if re.search(r"routing::Dir::new$|StaticFileHandler>::new$", g.key)]
+    startup = reach.Reach(prog, starts + [d for g in starts for d in prog.descendants(g.key)]).reached if starts else {}
+    callers = prog.callers()
+
+    def only_from_startup(key, seen=()):
+        if re.search(allowed, key):
+            return True
+        if key in seen or key in Rr.reached:
+            return False
+        cs = callers.get(key, [])
+        parent = prog.fns[key].parent if key in prog.fns else None
+        ups = {c.fn.key for c in cs} | ({parent} if parent and parent in prog.fns and not cs else set())
+        return bool(ups) and key in startup and all(only_from_startup(u, seen + (key,)) for u in ups)
+    bad = [k for k in readers if not only_from_startup(k)]
     ck.ob(R, "who:file-reads", not bad and len(readers) >= 2, "", "" if not bad else "files are read in %r, outside Dir::new / StaticFileHandler::new" % bad, how="file reads in %d start-up function(s) only" % len(readers))
     # those readers are reachable only from registration (Route::Dir / RoutingItem::apply), never from a handler proc
     callers = prog.callers()
